@@ -222,9 +222,9 @@ func genQuery(r *hx.Rng, d *dataset) query {
 			if r.Chance(50) {
 				q.offset = r.Intn(10)
 			}
-		} else if q.grp == "-" && r.Chance(10) {
-			q.offset = 1 + r.Intn(10)
 		}
+		// OFFSET without LIMIT is outside the subset (InfluxQL: "the OFFSET clause requires a
+		// LIMIT clause", results are documented as inconsistent without one)
 		return q
 	}
 	n := 1
